@@ -17,6 +17,19 @@ Definition v_node (v : val) : node :=
 Definition v_fs (v : val) : fsmap :=
   map (fun e => (v_phys (vnth 0 e), v_node (vnth 1 e))) (vL v).
 
+(* permission bits of the entries that carry them: (td n<mode>) | (tf b<data> n<mode>) *)
+Definition v_mode_of_node (v : val) : option N :=
+  let tg := vnth 0 v in
+  if is_tagv tg "f" then (match vnth 2 v with VN m => Some m | _ => None end)
+  else if is_tagv tg "d" then (match vnth 1 v with VN m => Some m | _ => None end)
+  else None.
+
+Definition v_modes (v : val) : modes :=
+  flat_map (fun e => match v_mode_of_node (vnth 1 e) with
+                     | Some m => [(v_phys (vnth 0 e), m)]
+                     | None => []
+                     end) (vL v).
+
 Fixpoint v_utree (v : val) : utree :=
   match v with
   | VL (VT tg :: args) =>
@@ -81,6 +94,17 @@ Definition fs_canon (fs : fsmap) : fsmap :=
 Definition fs_v (fs : fsmap) : val :=
   VL (map (fun e => VL [phys_v (fst e); node_v (snd e)]) (fs_canon fs)).
 
+(* with permission bits (symbolic links have none worth comparing) *)
+Definition node_mv (m : modes) (fs : fsmap) (p : phys) (n : node) : val :=
+  let md := match mode_of m fs p with Some x => x | None => 0 end in
+  match n with
+  | NDir => VL [VT "d"; VN md]
+  | NFile d => VL [VT "f"; VB d; VN md]
+  | NLink t => VL [VT "l"; VB t]
+  end.
+Definition fs_mv (m : modes) (fs : fsmap) : val :=
+  VL (map (fun e => VL [phys_v (fst e); node_mv m fs (fst e) (snd e)]) (fs_canon fs)).
+
 Definition xres_v (r : xres) : val :=
   match r with
   | XErr => VL [VT "err"]
@@ -103,7 +127,7 @@ Definition run_extract (input : val) : val :=
             | Some root => VL [VT "some"; phys_v (phys_of cwd root)]
             | None => VL [VT "none"]
             end in
-  VL [xres_v r; rr; fs_v fs'].
+  VL [xres_v r; rr; fs_mv (v_modes (vnth 0 input)) fs'].
 
 (* layer B on what the implementation did: every path outside the (real) output directory is
    the same before and after. *)
@@ -121,22 +145,32 @@ Definition onode_eqb (a b : option node) : bool :=
   | _, _ => false
   end.
 
-Definition outside_change (inside : phys -> bool) (before after : fsmap) (p : phys) : option string :=
+Definition omode_eqb (a b : option N) : bool :=
+  match a, b with
+  | Some x, Some y => x =? y
+  | None, None => true
+  | _, _ => false
+  end.
+
+Definition outside_change (inside : phys -> bool) (mb ma : modes) (before after : fsmap) (p : phys) : option string :=
   if inside p then None
   else match look before p, look after p with
        | None, Some _ => Some "created"
        | Some _, None => Some "deleted"
-       | Some x, Some y => if node_eqb x y then None else Some "modified"
+       | Some x, Some y =>
+         if negb (node_eqb x y) then Some "modified"
+         else if (match x with NLink _ => true | _ => false end) || omode_eqb (mode_of mb before p) (mode_of ma after p)
+         then None else Some "mode-changed"
        | None, None => None
        end%string.
 
-Fixpoint first_change (inside : phys -> bool) (before after : fsmap) (ps : list phys) : option string :=
+Fixpoint first_change (inside : phys -> bool) (mb ma : modes) (before after : fsmap) (ps : list phys) : option string :=
   match ps with
   | [] => None
   | p :: t =>
-    match outside_change inside before after p with
+    match outside_change inside mb ma before after p with
     | Some c => Some c
-    | None => first_change inside before after t
+    | None => first_change inside mb ma before after t
     end
   end.
 
@@ -145,7 +179,8 @@ Definition prop_extract (input obs : val) : val :=
   let after := v_fs (vnth 2 obs) in
   let rr := vnth 1 obs in
   let inside := if is_tagv (vnth 0 rr) "some" then underb (v_phys (vnth 1 rr)) else (fun _ => false) in
-  match first_change inside before after (map fst before ++ map fst after) with
+  match first_change inside (v_modes (vnth 0 input)) (v_modes (vnth 2 obs)) before after
+                     (map fst before ++ map fst after) with
   | None => VT "ok"
   | Some c => VL [VT "FAIL"; VT "changed-outside-output-directory"; VT c]
   end.
@@ -174,7 +209,7 @@ Definition run_createextract (input : val) : val :=
   else
     (* the archive cannot be opened: nothing is extracted *)
     match run_extract input with
-    | VL [_; rr; _] => VL [VL [VT "err"]; rr; fs_v (v_fs (vnth 0 input)); ri]
+    | VL [_; rr; _] => VL [VL [VT "err"]; rr; fs_mv (v_modes (vnth 0 input)) (v_fs (vnth 0 input)); ri]
     | v => v
     end.
 
